@@ -37,7 +37,7 @@ ASSUMPTIONS = [
 SHARDS = {"quick": 16, "thorough": 16}
 TIMEOUT = {"quick": 900, "thorough": 3600}
 MIN_CASES = {"quick": 3000, "thorough": 3000}
-REQUIRED_COUNTERS = ["cells_judged", "mapped_class_raised", "wrong_state_rejected", "ip_pairings_cells", "ble_pairings_cells", "ble_transport_cells", "ip_transport_cells", "coap_transport_cells"]
+REQUIRED_COUNTERS = ["cells_judged", "mapped_class_raised", "wrong_state_rejected", "ip_pairings_cells", "ble_pairings_cells", "ble_transport_cells", "ip_transport_cells", "coap_transport_cells", "ip_cells_with_http_4xx", "ble_pairings_cells_on_settled_session", "ip_verify_cells"]
 BLE_BUILT = True
 if not BLE_BUILT:
     REQUIRED_COUNTERS = [c for c in REQUIRED_COUNTERS if not c.startswith("ble_")]
@@ -244,11 +244,17 @@ async def ip_pairings_cell(ctx, cell, idx) -> None:
         if extra:
             items += [(1, b"other-controller"), (3, bytes(32)), (11, b"\x01")]
 
+        # real accessories (and the repository's own test server) send a TLV error reply with an HTTP 4xx status as often as
+        # with 200: the TLV body decides either way
+        status = [200, 470, 400, 405, 429, 200][idx % 6] if (err is not None or st not in (2, None)) else 200
+
         def responder(c, req):
             if req["target"] == "/pairings":
-                c.send(c.http(200, reftlv.encode(items), "application/pairing+tlv8"))
+                c.send(c.http(status, reftlv.encode(items), "application/pairing+tlv8"))
                 return True
             return False
+        if status != 200:
+            ctx.count("ip_cells_with_http_4xx")
 
         conn.script.responder = responder
         desc = f"ip {op}_pairing reply error={None if err is None else err.hex() or '<empty>'} state={st} extra={extra}"
@@ -304,6 +310,36 @@ def run(ctx) -> None:
                         await setup_transports.error_case(ctx, transport, step, err, with_fields, mapped_class(err), j)
 
     vloop.run(transport_cells())
+
+    # pair-verify through the real IP connection: M2 / M4 answered with an error (HTTP 200 or 4xx) never opens a session
+    async def ip_verify_cells():
+        from vf import simnet
+
+        j = 0
+        for step in ("m2_err", "m4_err"):
+            for code in (1, 2, 3, 4, 5, 6, 7, 0, 255):
+                for http in (200, 470, 400, 405):
+                    j += 1
+                    if not ctx.mine(j):
+                        continue
+                    rng = ctx.grng("C04.ip-verify", step, code, http)
+                    w = simnet.World(rng)
+                    w.accessory.script_for = lambda h, a, m=f"{step}:{code}:{http}": simnet.ConnScript(verify=m)
+                    ctx.case("ip-verify", step, code, http, sample={"transport": "ip", "step": "verify-" + step[:2].upper(), "error": code, "http_status": http}, kind="ip-verify")
+                    try:
+                        t = asyncio.ensure_future(w.connection.ensure_connection())
+                        t.add_done_callback(lambda f: f.cancelled() or f.exception())
+                        await asyncio.sleep(2.0)
+                        await vloop.settle()
+                        if w.connection.is_connected or any(c.secure for c in w.accessory.conns):
+                            ctx.violation("ip-verify-error-ignored", f"pair-verify {step} error {code} sent with HTTP {http}: the connection reports an open session", {"ip_verify_cell": [step, code, http]})
+                        else:
+                            ctx.count("ip_verify_cells")
+                        t.cancel()
+                    finally:
+                        await w.close()
+
+    vloop.run(ip_verify_cells())
     ctx.exhaustive_parts["transport-level pair-setup: step x error code x {BLE, IP, CoAP}"] = True
     ctx.notes["cells_total"] = len(cells) + len(pairings_cells()) * (2 if BLE_BUILT else 1)
 
